@@ -210,6 +210,7 @@ func shadowFeatures(src string) []string {
 		}
 		return
 	}
+	blocksClosed := 0
 	shadowedSeen := map[string]bool{} // outer names that have been shadowed by a block already closed
 	use := func(name, what string) {
 		d, sh := resolve(name)
@@ -258,6 +259,10 @@ func shadowFeatures(src string) []string {
 								if len(scopes) >= 3 {
 									f["redeclared-at-depth-2"] = true
 								}
+							} else if d < 0 && len(scopes) >= 2 {
+								f["block-local"] = true
+							} else if d < 0 && blocksClosed > 0 {
+								f["declaration-after-block"] = true
 							}
 							scopes[len(scopes)-1].names[n.Name] = true
 						}
@@ -309,6 +314,9 @@ func shadowFeatures(src string) []string {
 		}
 		top := scopes[len(scopes)-1]
 		scopes = scopes[:len(scopes)-1]
+		if len(top.names) > 0 {
+			blocksClosed++
+		}
 		for n := range top.names {
 			if d, _ := resolve(n); d >= 0 {
 				shadowedSeen[n] = true
